@@ -96,6 +96,13 @@ func routeGen(kind string, sequential bool) func(r *rand.Rand, tier string) []sp
 				}
 				p.Items = append(p.Items, it)
 			}
+			if kind == "grpc" && i%4 == 3 {
+				// a listener that is dialled 3.5 s after it was accepted, by a Dial that then takes 2.5 s between
+				// learning the address and connecting: inside the window when issued, connected after it
+				for k, side := range []string{"host", "plugin"} {
+					p.Items = append(p.Items, spec.RouteItem{Dir: side, AcceptFirst: true, GapMs: 3500, HoldAtGotInfoMs: 2500, ID: 5000000 + uint32(len(out))*4 + uint32(k)})
+				}
+			}
 			if kind == "grpc" && i%4 == 1 {
 				// ids that were dialled once in vain (timed out) before their pair is established
 				for k, side := range []string{"host", "plugin"} {
